@@ -161,7 +161,7 @@ def project(prop, op, line):
         return line
     if op == "rewrite":
         return "rv=0" if line.startswith("rv=0") else line
-    if op in ("locks", "rxeval", "fault"):
+    if op in ("locks", "rxeval", "fault", "dnsqx"):
         return ""
     head, secs = sections(line)
     S = [parse_S(s) for s in secs if s.startswith("S:") and not s.endswith(":-")]
